@@ -257,22 +257,28 @@ def reducedAlphaChannel (i : Img) (optimizeAlpha : Bool) : Option Img :=
 
 /-! ## palette (palette.rs) -/
 
+/-- one iteration of the condensing loop of `reduced_palette` over a used index `k`:
+    state = (condensed palette, byte map as association list, did_change) -/
+def palStep (palette : List Rgba) (optimizeAlpha : Bool)
+    (st : List Rgba × List (Nat × Nat) × Bool) (k : Nat) : List Rgba × List (Nat × Nat) × Bool :=
+  let black : Rgba := ⟨0, 0, 0, 255⟩
+  let c0 := palette.getD k black
+  let c := if optimizeAlpha && c0.a = 0 then ⟨0, 0, 0, c0.a⟩ else c0
+  let (set', idx) := match st.1.idxOf? c with
+    | some j => (st.1, j)
+    | none => (st.1 ++ [c], st.1.length)
+  (set', (k, idx) :: st.2.1, st.2.2 || (idx % 256 ≠ k))
+
 def reducedPalette (i : Img) (optimizeAlpha : Bool) : Option Img :=
   if i.ihdr.depth ≠ 8 then none else
   match i.ihdr.ct with
   | .indexed palette =>
-    let black : Rgba := ⟨0, 0, 0, 255⟩
     let usedIdx := (List.range 256).filter fun k => i.data.contains (UInt8.ofNat k)
-    -- (condensed, byte_map as assoc list, did_change)
-    let (condensed, bmap, changed) := usedIdx.foldl (fun (st : List Rgba × List (Nat × Nat) × Bool) k =>
-        let c0 := palette.getD k black
-        let c := if optimizeAlpha && c0.a = 0 then ⟨0, 0, 0, c0.a⟩ else c0
-        let (set', idx) := match st.1.idxOf? c with
-          | some j => (st.1, j)
-          | none => (st.1 ++ [c], st.1.length)
-        (set', (k, idx) :: st.2.1, st.2.2 || (idx % 256 ≠ k))) ([], [], false)
+    let st := usedIdx.foldl (palStep palette optimizeAlpha) ([], [], false)
+    let condensed := st.1
+    let bmap := st.2.1
     let mapByte (b : UInt8) : UInt8 := UInt8.ofNat ((bmap.lookup b.toNat).getD 0)
-    if changed then some ⟨{ i.ihdr with ct := .indexed condensed }, i.data.map mapByte⟩
+    if st.2.2 then some ⟨{ i.ihdr with ct := .indexed condensed }, i.data.map mapByte⟩
     else if condensed.length ≠ palette.length then some ⟨{ i.ihdr with ct := .indexed condensed }, i.data⟩
     else none
   | _ => none
@@ -294,6 +300,19 @@ def colorVal (c : Rgba) : Int :=
   let a : Int := c.a.toNat
   ((a / 2 * 2) * 262144) + (a % 2) - (c.r.toNat : Int) * 299 - (c.g.toNat : Int) * 587 - (c.b.toNat : Int) * 114
 
+/-- the enumerated palette `[(0, p0), (1, p1), …]` -/
+def enumeratedPalette (palette : List Rgba) : List (Nat × Rgba) := palette.zipIdx.map fun (c, k) => (k, c)
+
+/-- `sorted_palette`'s new order: the kept first entry (if any), then the rest by `colorVal` (stable) -/
+def sortedFinal (en : List (Nat × Rgba)) (keepFirst : Option Nat) : List (Nat × Rgba) :=
+  let fr : Option (Nat × Rgba) × List (Nat × Rgba) := match keepFirst with
+    | some f => (en[f]?, en.eraseIdx f)
+    | none => (none, en)
+  let sorted := fr.2.mergeSort fun a b => colorVal a.2 ≤ colorVal b.2
+  match fr.1 with
+  | some f => f :: sorted
+  | none => sorted
+
 def sortedPalette (i : Img) : Option Img :=
   if i.ihdr.depth ≠ 8 then none else
   match i.ihdr.ct with
@@ -302,12 +321,7 @@ def sortedPalette (i : Img) : Option Img :=
     match mostPopularEdgeColor palette.length i with
     | none => none
     | some keepFirst =>
-      let enumerated : List (Nat × Rgba) := (palette.zipIdx.map fun (c, k) => (k, c))
-      let (first, rest) := match keepFirst with
-        | some f => (enumerated[f]?, enumerated.eraseIdx f)
-        | none => (none, enumerated)
-      let sorted := rest.mergeSort fun a b => colorVal a.2 ≤ colorVal b.2
-      let final := match first with | some f => f :: sorted | none => sorted
+      let final := sortedFinal (enumeratedPalette palette) keepFirst
       let remapping := final.map (·.1)
       if remapping.zipIdx.all (fun (v, k) => v = k) then none else
       let mapByte (b : UInt8) : UInt8 := UInt8.ofNat ((remapping.idxOf? b.toNat).getD 0)
